@@ -2,6 +2,10 @@
 import vlib
 from vlib import Case
 
+# every case of this module is a direct operator / builtin / codec application whose size the oracle computes:
+# a "capacity overflow" panic is never excused here
+MEMORY_EXCLUSION_IN_UNCONSTRAINED = False
+
 RULE = ("op `enc <byte> <operands>`: definitions::make, lookup and read_operands on the real code vs the Lean model; "
         "the spec demands decode(encode(operands)) = operands whenever every operand fits its declared width; "
         "distinct = distinct (opcode byte, operand list); non-trivial = the opcode has a DEFINITIONS row and code was produced")
